@@ -687,6 +687,48 @@ Lemma lagrange w1 w2 d1 d2 :
   = (w1 * d1 + w2 * d2) * (w1 * d1 + w2 * d2) + (w1 * d2 - w2 * d1) * (w1 * d2 - w2 * d1).
 Proof. ring. Qed.
 
+Lemma seg_case_a s m n L W r : s <= 0 -> 0 < m -> 0 <= n -> 0 <= L ->
+  m * m * W - 2 * m * n * s + n * n * L < r * r * (m * m) -> W < r * r.
+Proof.
+  intros Hs Hm Hn HL H.
+  assert (0 <= m * n) by (apply Z.mul_nonneg_nonneg; lia).
+  assert (0 <= (m * n) * (- s)) by (apply Z.mul_nonneg_nonneg; lia).
+  assert (0 <= n * n * L) by (apply Z.mul_nonneg_nonneg; [apply Z.square_nonneg|assumption]).
+  assert (H3 : m * m * W < m * m * (r * r)) by lia.
+  apply Z.mul_lt_mono_pos_l in H3; [assumption|]. apply Z.mul_pos_pos; assumption.
+Qed.
+
+Lemma seg_case_b s m n L W r : L <= s -> 0 < m -> 0 <= n <= m -> 0 <= L ->
+  m * m * W - 2 * m * n * s + n * n * L < r * r * (m * m) -> W - 2 * s + L < r * r.
+Proof.
+  intros Hs Hm Hn HL H.
+  assert (E : m * m * W - 2 * m * n * s + n * n * L - m * m * (W - 2 * s + L)
+              = (m - n) * (2 * m * s - L * (m + n))) by ring.
+  assert (0 <= 2 * m * s - L * (m + n)).
+  { assert (L * (m + n) <= L * (2 * m)) by (apply Z.mul_le_mono_nonneg_l; lia).
+    assert (m * L <= m * s) by (apply Z.mul_le_mono_nonneg_l; lia). lia. }
+  assert (0 <= (m - n) * (2 * m * s - L * (m + n))) by (apply Z.mul_nonneg_nonneg; lia).
+  assert (H3 : m * m * (W - 2 * s + L) < m * m * (r * r)) by lia.
+  apply Z.mul_lt_mono_pos_l in H3; [assumption|]. apply Z.mul_pos_pos; assumption.
+Qed.
+
+Lemma seg_case_c s m n L W X r : W * L = s * s + X * X -> 0 < L -> 0 < m ->
+  m * m * W - 2 * m * n * s + n * n * L < r * r * (m * m) -> X * X < r * r * L.
+Proof.
+  intros Hlag HL Hm H.
+  assert (E : L * (m * m * W - 2 * m * n * s + n * n * L)
+              = m * m * (X * X) + (m * s - n * L) * (m * s - n * L)).
+  { replace (L * (m * m * W - 2 * m * n * s + n * n * L))
+      with (m * m * (W * L) - 2 * m * n * s * L + n * n * L * L) by ring.
+    rewrite Hlag. ring. }
+  assert (H1 : L * (m * m * W - 2 * m * n * s + n * n * L) < L * (r * r * (m * m)))
+    by (apply Z.mul_lt_mono_pos_l; assumption).
+  rewrite E in H1.
+  pose proof (Z.square_nonneg (m * s - n * L)) as Hsq.
+  assert (H2 : m * m * (X * X) < m * m * (r * r * L)) by lia.
+  apply Z.mul_lt_mono_pos_l in H2; [assumption|]. apply Z.mul_pos_pos; assumption.
+Qed.
+
 (* main result 4: the test answers "yes" exactly when some rational point a + (n/m)(b - a),
    0 <= n/m <= 1, of the segment is at distance < r from p *)
 Theorem seg_closer_than_lemma : forall p a b r,
@@ -698,37 +740,34 @@ Proof.
   set (w1 := px - ax). set (w2 := py - ay). set (d1 := bx - ax). set (d2 := by_ - ay).
   replace (px - bx) with (w1 - d1) by (unfold w1, d1; ring).
   replace (py - by_) with (w2 - d2) by (unfold w2, d2; ring).
-  set (L := d1 * d1 + d2 * d2). set (s := w1 * d1 + w2 * d2).
-  set (W := w1 * w1 + w2 * w2). set (X := w1 * d2 - w2 * d1).
-  assert (HL : 0 <= L) by (unfold L; nia).
-  assert (Hlag : W * L = s * s + X * X) by (unfold W, L, s, X; ring).
-  (* the quadratic |m w - n d|^2 = m^2 W - 2 m n s + n^2 L *)
+  clearbody w1 w2 d1 d2. clear px py ax ay bx by_.
   assert (Hq : forall n m, (m * w1 - n * d1) * (m * w1 - n * d1) + (m * w2 - n * d2) * (m * w2 - n * d2)
-                           = m * m * W - 2 * m * n * s + n * n * L)
-    by (intros; unfold W, s, L; ring).
+                           = m * m * (w1 * w1 + w2 * w2) - 2 * m * n * (w1 * d1 + w2 * d2)
+                             + n * n * (d1 * d1 + d2 * d2))
+    by (intros; ring).
+  pose proof (lagrange w1 w2 d1 d2) as Hlag.
+  assert (HL : 0 <= d1 * d1 + d2 * d2)
+    by (pose proof (Z.square_nonneg d1); pose proof (Z.square_nonneg d2); lia).
+  set (L := d1 * d1 + d2 * d2) in *. set (s := w1 * d1 + w2 * d2) in *.
+  set (W := w1 * w1 + w2 * w2) in *. set (X := w1 * d2 - w2 * d1) in *.
+  clearbody L s W X.
   destruct (Z.leb_spec s 0) as [Hs|Hs].
   - (* closest point is a *)
     rewrite Z.ltb_lt. split.
     + intros H. exists 0, 1. split; [lia|]. split; [lia|]. rewrite Hq. lia.
     + intros (n & m & Hm & Hn & H). rewrite Hq in H.
-      assert (0 <= - (2 * m * n * s)) by nia.
-      assert (0 <= n * n * L) by nia.
-      assert (m * m * W < r * r * (m * m)) by lia.
-      nia.
+      apply (seg_case_a s m n L W r); try assumption; lia.
   - destruct (Z.leb_spec L s) as [HLs|HLs].
     + (* closest point is b *)
       rewrite Z.ltb_lt.
-      replace ((w1 - d1) * (w1 - d1) + (w2 - d2) * (w2 - d2)) with (W - 2 * s + L)
-        by (unfold W, s, L; ring).
+      replace ((w1 - d1) * (w1 - d1) + (w2 - d2) * (w2 - d2))
+        with (w1 * w1 + w2 * w2 - 2 * (w1 * d1 + w2 * d2) + (d1 * d1 + d2 * d2)) by ring.
+      pose proof (Hq 1 1) as Hq1.
       split.
       * intros H. exists 1, 1. split; [lia|]. split; [lia|]. rewrite Hq. lia.
       * intros (n & m & Hm & Hn & H). rewrite Hq in H.
-        assert (E : m * m * W - 2 * m * n * s + n * n * L - m * m * (W - 2 * s + L)
-                    = (m - n) * (2 * m * s - L * (m + n))) by ring.
-        assert (0 <= (m - n) * (2 * m * s - L * (m + n))).
-        { apply Z.mul_nonneg_nonneg; [lia|]. nia. }
-        assert (m * m * (W - 2 * s + L) < r * r * (m * m)) by lia.
-        nia.
+        assert (W - 2 * s + L < r * r) by (apply (seg_case_b s m n L W r); try assumption; lia).
+        lia.
     + (* interior projection *)
       rewrite Z.ltb_lt.
       assert (HLpos : 0 < L) by lia.
@@ -739,18 +778,7 @@ Proof.
         replace (r * r * (L * L)) with (L * (r * r * L)) by ring.
         apply Z.mul_lt_mono_pos_l; assumption.
       * intros (n & m & Hm & Hn & H). rewrite Hq in H.
-        assert (E : L * (m * m * W - 2 * m * n * s + n * n * L)
-                    = m * m * (X * X) + (m * s - n * L) * (m * s - n * L)).
-        { replace (L * (m * m * W - 2 * m * n * s + n * n * L))
-            with (m * m * (W * L) - 2 * m * n * s * L + n * n * L * L) by ring.
-          rewrite Hlag. ring. }
-        assert (H1 : L * (m * m * W - 2 * m * n * s + n * n * L) < L * (r * r * (m * m)))
-          by (apply Z.mul_lt_mono_pos_l; assumption).
-        rewrite E in H1.
-        assert (0 <= (m * s - n * L) * (m * s - n * L)) by nia.
-        assert (m * m * (X * X) < m * m * (r * r * L)) by lia.
-        assert (0 < m * m) by nia.
-        apply Z.mul_lt_mono_pos_l in H2; assumption.
+        apply (seg_case_c s m n L W X r); assumption.
 Qed.
 
 (* the test is homogeneous: a common positive factor (the common denominator of rational
@@ -865,7 +893,7 @@ Theorem cross_vertices_lemma : forall cx cy s w,
   /\ shoelace2 (cross_pts (cx, cy) s w) == 2 * (2 * s * w - w * w).
 Proof.
   intros. split.
-  - unfold cross_pts. cbn [map padd fst snd].
-    repeat (constructor; [split; cbn [fst snd]; field|]). constructor.
+  - unfold cross_pts. cbn [map].
+    repeat (constructor; [unfold pteq, padd; cbn [fst snd]; split; field|]). constructor.
   - unfold shoelace2, cross_pts, shoelace_open, cross, padd. cbn [map fst snd]. field.
 Qed.
